@@ -191,7 +191,8 @@ Fixpoint has_suffix (suf s : string) : bool :=
 
 (* the keeper-side operand must be the keeper's stored authority *)
 Definition against_ok (s : string) : bool :=
-  has_suffix ".authority" s || has_suffix ".GetAuthority().String()" s || has_suffix ".GetAuthority()" s.
+  has_suffix ".authority" s || has_suffix ".GetAuthority().String()" s || has_suffix ".GetAuthority()" s ||
+  has_suffix ".authority.String()" s.
 
 Definition kind_ok (k : cmp_kind) : bool :=
   match k with CmpNeq | CmpEqualFold => true | _ => false end.
@@ -225,17 +226,29 @@ Definition delegate_ok (hs : list handler_row) (lookups : list lookup_row) (r : 
   existsb (fun t => String.eqb (h_url t) (h_url r) && String.eqb (h_name t) (h_delegate r) &&
                     negb (is_delegate t) && guards_first t) hs.
 
+(* committed exceptions: handlers whose guard is NOT the first effectful statement.
+   cosmos-sdk x/gov ExecLegacyContent first calls k.GetGovernanceAccount(ctx) — which returns the gov module
+   account and would create it if it did not exist — and compares the authority with THAT account's address
+   (not with k.authority).  The account exists since genesis, so the call is a read; the differential run
+   checks byte-identical stores for this message like for every other.  An exception row must still have a
+   recognised `!=` guard, and must compare with exactly the expression recorded here. *)
+Definition guard_exceptions : list (string * string) :=
+  [("/cosmos.gov.v1.MsgExecLegacyContent", "k.GetGovernanceAccount(ctx).GetAddress().String()")].
+
+Definition exception_ok (r : handler_row) : bool :=
+  existsb (fun e => String.eqb (fst e) (h_url r) && String.eqb (snd e) (h_against r)) guard_exceptions &&
+  (0 <=? h_guard_idx r)%Z && match h_kind r with CmpNeq => true | _ => false end.
+
 Definition row_ok (hs : list handler_row) (lookups : list lookup_row) (r : handler_row) : bool :=
-  if is_delegate r then delegate_ok hs lookups r else guards_first r.
+  if is_delegate r then delegate_ok hs lookups r else guards_first r || exception_ok r.
 
 Definition rows_for (hs : list handler_row) (url : string) : list handler_row :=
   filter (fun r => String.eqb (h_url r) url) hs.
 
-(* table (1) x table (2): every fx-core-implemented authority message has at least one handler row,
-   and every row for it is fine *)
+(* table (1) x table (2): EVERY authority message routable in the running app — fx-core's, cosmos-sdk's,
+   ibc-go's, ethermint's — has at least one handler row, and every row for it is fine *)
 Definition msg_guarded (hs : list handler_row) (lookups : list lookup_row) (m : authmsg_row) : bool :=
-  negb (am_in_fx m) ||
-  (match rows_for hs (am_url m) with [] => false | rs => forallb (row_ok hs lookups) rs end).
+  match rows_for hs (am_url m) with [] => false | rs => forallb (row_ok hs lookups) rs end.
 
 Definition all_guarded (ms : list authmsg_row) (hs : list handler_row) (lookups : list lookup_row) : bool :=
   forallb (msg_guarded hs lookups) ms && forallb (row_ok hs lookups) hs.
@@ -245,6 +258,31 @@ Definition authaddr_expected : string := "authtypes.NewModuleAddress(govtypes.Mo
 (* comparison kind the source uses for a type URL: that of its self-checking row *)
 Definition kind_of (hs : list handler_row) (url : string) : cmp_kind :=
   match filter (fun r => negb (is_delegate r)) (rows_for hs url) with
-  | r :: _ => if guards_first r then h_kind r else CmpNone
+  | r :: _ => if guards_first r || exception_ok r then h_kind r else CmpNone
   | [] => CmpNone
+  end.
+
+(* the dependency sources table (2) was read from, pinned by sha256: a dependency bump (the module version
+   is part of the path) or a changed file breaks the tie loudly and the handlers have to be re-read *)
+Definition dep_files_expected : list (string * string) :=
+ [("cosmossdk.io/x/upgrade@v0.1.4/keeper/msg_server.go", "4017b76b848c316a2354e80ce98d6832031430bf51bf386d9355a4d6cf146a25");
+  ("github.com/cosmos/ibc-go/v8@v8.5.1/modules/apps/transfer/keeper/msg_server.go", "30cbd140d324c0c7c8179b5abdc0b5d0bfa30583025b67044c4a2b45b05cd170");
+  ("github.com/cosmos/ibc-go/v8@v8.5.1/modules/core/keeper/msg_server.go", "5fdd185d8fc79e572030ef479b436e117bdbb75bf4d939766bc52589560ec473");
+  ("github.com/crypto-org-chain/cosmos-sdk@v0.50.6-0.20240902025731-535413db1bf4/x/auth/keeper/msg_server.go", "abaa45209973b372abf93df21c7ac41ff72b69eed2c5dbfaaf5c09634202ef9c");
+  ("github.com/crypto-org-chain/cosmos-sdk@v0.50.6-0.20240902025731-535413db1bf4/x/bank/keeper/msg_server.go", "436f8a288ca753e6e4981b3cc7fe96ba487e6bcfc878705bcdb0a928916d21ff");
+  ("github.com/crypto-org-chain/cosmos-sdk@v0.50.6-0.20240902025731-535413db1bf4/x/consensus/keeper/keeper.go", "87dd590cff55047dec946e5b594457cfcd2c964656c874685abf9b3ea36eb474");
+  ("github.com/crypto-org-chain/cosmos-sdk@v0.50.6-0.20240902025731-535413db1bf4/x/crisis/keeper/msg_server.go", "5bacd62f2dfd283e63634f8f5ab03c2926b4ff9b3ce5791fac531bcc57e7b1e6");
+  ("github.com/crypto-org-chain/cosmos-sdk@v0.50.6-0.20240902025731-535413db1bf4/x/distribution/keeper/msg_server.go", "f7503372d592806a5fb71dcfa0c965a079d1c3102ad335ce457cd03937409ea9");
+  ("github.com/crypto-org-chain/cosmos-sdk@v0.50.6-0.20240902025731-535413db1bf4/x/gov/keeper/msg_server.go", "c04729467dfb2f0144f3fe7002851bc426aa447894b17a401441cbf13753e6b4");
+  ("github.com/crypto-org-chain/cosmos-sdk@v0.50.6-0.20240902025731-535413db1bf4/x/mint/keeper/msg_server.go", "2ecb87e27573d8663395a1445c8dd1758e10e0d1acdb0337b13d2a03ffea765e");
+  ("github.com/crypto-org-chain/cosmos-sdk@v0.50.6-0.20240902025731-535413db1bf4/x/slashing/keeper/msg_server.go", "f16ea11a43f8c9681b84e89ce617f1d067d4ca11512b3c92b5dc8859cd4357e8");
+  ("github.com/crypto-org-chain/cosmos-sdk@v0.50.6-0.20240902025731-535413db1bf4/x/staking/keeper/msg_server.go", "4eb393b9676afc1d178f8c439a1886b5f030acfb7690af63866b724e42ba45c1");
+  ("github.com/functionx/ethermint@v0.6.1-0.20240914063604-28a75474779c/x/evm/keeper/msg_server.go", "32b42a8c4c4910e3886072a614378bb11f2287ef788b7b022ed306d0babac2c4");
+  ("github.com/functionx/ethermint@v0.6.1-0.20240914063604-28a75474779c/x/feemarket/keeper/msg_server.go", "8044ef20fbd5ec05a86b25b7abcf9d089ef78c18b3174f50dbda5699a08d4b63")].
+
+Fixpoint str_pairs_eqb (a b : list (string * string)) : bool :=
+  match a, b with
+  | [], [] => true
+  | (x1, y1) :: a', (x2, y2) :: b' => String.eqb x1 x2 && String.eqb y1 y2 && str_pairs_eqb a' b'
+  | _, _ => false
   end.
